@@ -248,6 +248,7 @@ def run_C17(ctx, R):
     _per_config(ctx, R, _inl(utilsx.gen2))
     _per_config(ctx, R, utilsx.esc2)
     _per_config(ctx, R, utilsx.esc4)
+    _per_config(ctx, R, utilsx.ord2)
     _per_config(ctx, R, utilsx.dig1)
     from .rules import tree
     _scoped(ctx, R, tree.tab3, C17_ENTRIES, 4)
@@ -274,6 +275,7 @@ def run_C18(ctx, R):
     from .rules import tree
     _scoped(ctx, R, tree.tab3, C18_ENTRIES, 6)
     _per_config(ctx, R, utilsx.mrg5)
+    _per_config(ctx, R, utilsx.ord2)
 
 
 def run_C19(ctx, R):
